@@ -19,7 +19,7 @@ from checks import issuance_common as ic
 def run(ctx):
     ctx.model_check("MC_Issuance", "MC_RL.cfg", workers=2)
     n, cases, kinds = ic.run(ctx, "C07", ["rl"])
-    vn, vcases, vdepth = vc.run(ctx, ['rlissuer'])   # Verdicts.tla: every history of presentations on one long-lived object
+    vn, vcases, vdepth = vc.run(ctx, ['rlissuer', 'rlorigins'])   # Verdicts.tla: every history of presentations on one long-lived object
     return ctx.finish({
         "traces_validated_against_impl": n,
         "evaluations": len(cases),
